@@ -21,6 +21,11 @@ pub const TEMPLATES: &[(&str, &str, &str)] = &[
     ("res-unknown-name", "resolver", "from t | select {a, b} | filter ⟦zz⟧ > 1"),
     ("res-unknown-name-in-derive", "resolver", "from t | select {a, b} | derive {c = a + ⟦zz⟧}"),
     ("res-unknown-function", "resolver", "from t | derive x = ⟦nosuchfn a⟧"),
+    // an unknown name inside an interpolated string, with ASCII / multi-byte text in the string before it
+    ("res-unknown-name-in-sstring", "resolver", "from t | select {a, b} | derive x = s\"abs + {⟦zz⟧}\""),
+    ("res-unknown-name-in-sstring-after-2-byte-text", "resolver", "from t | select {a, b} | derive x = s\"é + {⟦zz⟧}\""),
+    ("res-unknown-name-in-fstring-after-multibyte-text", "resolver", "from t | select {a, b} | derive x = f\"éé 中{⟦zz⟧} 🐢\""),
+    ("res-unknown-name-in-fstring-second-hole", "resolver", "from t | select {a, b} | derive x = f\"« {a} » n° {⟦zz⟧}\""),
     ("res-ambiguous", "resolver", "from t | select {a, b} | join r=(from u | select {a, d}) (==a) | filter ⟦a⟧ > 1"),
     ("res-too-many-args", "resolver", "from t | ⟦take 1 2⟧"),
     ("res-unknown-named-arg", "resolver", "from t | ⟦sort nope:1 {a}⟧"),
